@@ -3,7 +3,9 @@ package main
 // Child side of the Joe families: the scenario, its val encoding, and its interpreter.
 //
 // scenario = ( meta replayer subs pubs shuts )
-//   meta     = ( seed gomaxprocs policy parks )
+//   meta     = ( seed gomaxprocs policy parks [noonsession] )
+//              noonsession n1: the sse.Server of the scenario (see `via` below) has NO OnSession callback: every session
+//              that comes in through it is subscribed to the default topic
 //     park   = ( point id nth stages timeout_us )   hold the goroutine that logged event `point`
 //              with first argument `id` (n999999 = any) at its nth occurrence (n0 = every one)
 //              until the stages were observed or the timeout expired
@@ -25,9 +27,26 @@ package main
 //              and - calls that belong to a subscriber - the subscriber's own context cancelled inside the call and its
 //              ctx.Err() returned as it is / wrapped with %w / wrapped in the harness's type.  putscript only: v in
 //              [300,400) = the error of character (v-300)/10 returned TOGETHER with the message (return m, err)
-//   sub      = ( topics idopt wscript selfcancel start cancelopt )  cancelopt = () never | ( cond )
+//   sub      = ( topics idopt wscript selfcancel start cancelopt [via] )  cancelopt = () never | ( cond )
 //              (( () ) = cancelled before Subscribe is called)
-//   pub      = ( start msgs )  a publisher thread;  msg = ( topics idopt pre [shape [same]] )
+//              via (bits): 1 = the subscriber is an HTTP session: it comes in through sse.Server.ServeHTTP (a request with the
+//              scenario's Last-Event-ID header, a ResponseWriter that can flush), the Server's OnSession callback answers
+//              `topics` for it - a list of 0, 1, 2.. topics; an empty list (bit 4: nil, else empty non-nil) and a Server
+//              without OnSession mean the default topic - and the Server's Provider is the scenario's Joe behind a thin
+//              Provider that puts the recording writer in front of the *sse.Session (the Subscription is otherwise
+//              the one the Server built: its Topics slice, its LastEventID).  2 = the writer forwards every call it answers
+//              ok to a real *sse.Session (the Server's, or one made by sse.Upgrade) over a sink: whatever that does
+//              with what Joe hands it happens on Joe's goroutine (a panic there ends the process: status 1).
+//              The topics the trace records for a subscriber (sub.enter) are the EFFECTIVE ones (default topic filled in).
+//   pub      = ( start msgs )  a publisher thread;  msg = ( topics idopt pre [shape [same [flags]]] )
+//              flags (bits): 1 = published through sse.Server.Publish(m, topics...) - no topics there means the default
+//              topic (Joe.Publish without topics is refused with ErrNoTopic); the trace records the effective topics.
+//              2 = the call passes the thread's ONE topics slice object: the slice the thread's previous flagged call
+//              passed, its elements REWRITTEN IN PLACE (resliced when the new list is shorter) once that call's delivery
+//              round is over (the loop is idle again or has exited, or the call was refused) - a publisher that keeps
+//              one buffer for its topics.  Where the end of the round was not observed, or the list is longer than the
+//              buffer, a fresh slice is used and becomes the buffer.  Ignored when a real replayer stores the events
+//              (kinds 1-3: replay.go keeps the slice it is given).
 //              the token p of a message = its index in the concatenation of all threads' msgs (one token per Publish call).
 //              shape n0: the data field carries the token; n1: a message without data, event type and retry
 //              (with idopt = () it is &sse.Message{}).  same = k+1: this call publishes the SAME *sse.Message object as
@@ -47,6 +66,8 @@ import (
 	"errors"
 	"fmt"
 	"net"
+	"net/http"
+	"net/http/httptest"
 	"os"
 	"runtime"
 	"sync"
@@ -82,13 +103,41 @@ type jSubSpec struct {
 	start      jCond
 	hasCancel  bool
 	cancel     jCond
+	via        uint64 // bits: 1 through Server.ServeHTTP, 2 forwards to a real Session, 4 OnSession answers nil for "no topics"
 }
+
+const (
+	jViaServer  = 1
+	jViaSession = 2
+	jViaNil     = 4
+	jPubServer  = 1
+	jPubReuse   = 2
+)
+
+// effTopics: the topics the subscription has for Joe - a session of the Server without topics of its own is on the
+// default topic.
+func (x *jSubSpec) effTopics(noOnSession bool) []uint64 {
+	if x.via&jViaServer != 0 && (noOnSession || len(x.topics) == 0) {
+		return []uint64{0}
+	}
+	return x.topics
+}
+
+// effTopics: the topics of the publication - Server.Publish without topics publishes to the default topic.
+func (m *jMsgSpec) effTopics() []uint64 {
+	if m.flags&jPubServer != 0 && len(m.topics) == 0 {
+		return []uint64{0}
+	}
+	return m.topics
+}
+
 type jMsgSpec struct {
 	topics []uint64
 	idopt  val.V
 	pre    jCond
 	shape  uint64
 	same   uint64 // k+1: the object of the k-th message of the thread is published again
+	flags  uint64 // bits: 1 through Server.Publish, 2 the thread's one topics slice, rewritten in place
 }
 type jPubSpec struct {
 	start jCond
@@ -107,6 +156,7 @@ type jParkSpec struct {
 }
 type jScenario struct {
 	seed, procs, policy uint64
+	noOnSession         bool
 	parks               []*jParkSpec
 	kind, cap, auto, gc uint64
 	putScript           []uint64
@@ -152,19 +202,26 @@ func (s *jScenario) enc() val.V {
 	}
 	subs := []val.V{}
 	for _, x := range s.subs {
-		subs = append(subs, val.L(jNums(x.topics), jIDOpt(x.idopt), jNums(x.script), val.Bool(x.selfCancel),
-			x.start.enc(), jCondOpt(x.hasCancel, x.cancel)))
+		sv := []val.V{jNums(x.topics), jIDOpt(x.idopt), jNums(x.script), val.Bool(x.selfCancel),
+			x.start.enc(), jCondOpt(x.hasCancel, x.cancel)}
+		if x.via != 0 {
+			sv = append(sv, val.N(x.via))
+		}
+		subs = append(subs, val.List(sv))
 	}
 	pubs := []val.V{}
 	for _, t := range s.pubs {
 		msgs := []val.V{}
 		for _, m := range t.msgs {
 			mv := []val.V{jNums(m.topics), jIDOpt(m.idopt), m.pre.enc()}
-			if m.shape != 0 || m.same != 0 {
+			if m.shape != 0 || m.same != 0 || m.flags != 0 {
 				mv = append(mv, val.N(m.shape))
 			}
-			if m.same != 0 {
+			if m.same != 0 || m.flags != 0 {
 				mv = append(mv, val.N(m.same))
+			}
+			if m.flags != 0 {
+				mv = append(mv, val.N(m.flags))
 			}
 			msgs = append(msgs, val.List(mv))
 		}
@@ -178,8 +235,12 @@ func (s *jScenario) enc() val.V {
 	if s.gc != 0 {
 		rv = append(rv, val.N(s.gc))
 	}
+	meta := []val.V{val.N(s.seed), val.N(s.procs), val.N(s.policy), val.List(parks)}
+	if s.noOnSession {
+		meta = append(meta, val.N(1))
+	}
 	return val.L(
-		val.L(val.N(s.seed), val.N(s.procs), val.N(s.policy), val.List(parks)),
+		val.List(meta),
 		val.List(rv),
 		val.List(subs), val.List(pubs), val.List(shuts))
 }
@@ -194,7 +255,7 @@ func jDecCond(v val.V) jCond {
 
 func jDecode(v val.V) *jScenario {
 	meta, rep := v.At(0), v.At(1)
-	s := &jScenario{seed: meta.At(0).Num(), procs: meta.At(1).Num(), policy: meta.At(2).Num(),
+	s := &jScenario{seed: meta.At(0).Num(), procs: meta.At(1).Num(), policy: meta.At(2).Num(), noOnSession: meta.At(4).Truth(),
 		kind: rep.At(0).Num(), cap: rep.At(1).Num(), auto: rep.At(2).Num(), gc: rep.At(5).Num(),
 		putScript: scriptOf(rep.At(3)), repScript: scriptOf(rep.At(4))}
 	for _, p := range meta.At(3).Items() {
@@ -203,12 +264,12 @@ func jDecode(v val.V) *jScenario {
 	}
 	for _, x := range v.At(2).Items() {
 		s.subs = append(s.subs, jSubSpec{topics: scriptOf(x.At(0)), idopt: x.At(1), script: scriptOf(x.At(2)),
-			selfCancel: x.At(3).Truth(), start: jDecCond(x.At(4)), hasCancel: x.At(5).Present(), cancel: jDecCond(x.At(5).At(0))})
+			selfCancel: x.At(3).Truth(), start: jDecCond(x.At(4)), hasCancel: x.At(5).Present(), cancel: jDecCond(x.At(5).At(0)), via: x.At(6).Num()})
 	}
 	for _, t := range v.At(3).Items() {
 		pt := jPubSpec{start: jDecCond(t.At(0))}
 		for _, m := range t.At(1).Items() {
-			pt.msgs = append(pt.msgs, jMsgSpec{topics: scriptOf(m.At(0)), idopt: m.At(1), pre: jDecCond(m.At(2)), shape: m.At(3).Num(), same: m.At(4).Num()})
+			pt.msgs = append(pt.msgs, jMsgSpec{topics: scriptOf(m.At(0)), idopt: m.At(1), pre: jDecCond(m.At(2)), shape: m.At(3).Num(), same: m.At(4).Num(), flags: m.At(5).Num()})
 		}
 		s.pubs = append(s.pubs, pt)
 	}
@@ -380,6 +441,8 @@ type jx struct {
 	wakeFn    func()
 	sc        *jScenario
 	joe       *sse.Joe
+	srv       *sse.Server // the Server in front of joe (subscribers with via&1, publications with flags&1)
+	reqW      sync.Map    // *http.Request -> *jwriter: the sessions that come in through srv
 
 	evs    []val.V
 	counts map[[2]uint64]uint64
@@ -401,7 +464,11 @@ type jx struct {
 	calls    int // calls started and not returned
 	shutSeen bool
 	exitSeen bool
+	inRound  bool // the loop is inside the delivery round of Publish call roundTok (from loop.errs until it is idle / gone)
+	roundTok uint64
 }
+
+const jRoundOver = 50 // stage code: the delivery round of Publish call `id` is over (or the call was refused: there is none)
 
 func (x *jx) appendLocked(ev val.V, code, id uint64) int {
 	seq := len(x.evs)
@@ -415,6 +482,19 @@ func (x *jx) appendLocked(ev val.V, code, id uint64) int {
 		x.shutSeen = true
 	case 37:
 		x.exitSeen = true
+	}
+	switch code {
+	case 27:
+		x.inRound, x.roundTok = true, id
+	case 24, 36, 37:
+		if x.inRound {
+			x.inRound = false
+			x.counts[[2]uint64{jRoundOver, x.roundTok}]++
+		}
+	case 15:
+		if x.counts[[2]uint64{25, id}] == 0 {
+			x.counts[[2]uint64{jRoundOver, id}]++ // Publish returned and the loop never took the message
+		}
 	}
 	if x.shm != nil {
 		t := val.String(ev)
@@ -542,7 +622,7 @@ func (x *jx) hook(point string, a, b any) {
 		topics, idopt := val.L(), val.L()
 		if w, ok := b.(*jwriter); ok && w != nil {
 			id = w.i
-			topics, idopt = jNums(w.spec.topics), jIDOpt(w.spec.idopt)
+			topics, idopt = jNums(w.spec.effTopics(x.sc.noOnSession)), jIDOpt(w.spec.idopt)
 		}
 		x.subIdx[a] = id
 		ev = val.L(val.N(1), val.N(id), topics, idopt)
@@ -565,7 +645,7 @@ func (x *jx) hook(point string, a, b any) {
 		// harness did not make: what the message carries)
 		topics, idopt, thread := val.L(), jMsgID(m), uint64(jUnknown)
 		if id < uint64(len(x.tokMsg)) {
-			topics, idopt, thread = jNums(x.tokMsg[id].topics), jIDOpt(x.tokMsg[id].idopt), x.tokThread[id]
+			topics, idopt, thread = jNums(x.tokMsg[id].effTopics()), jIDOpt(x.tokMsg[id].idopt), x.tokThread[id]
 		}
 		ev = val.L(val.N(11), val.N(id), topics, idopt, val.N(thread))
 	case code <= 14:
@@ -756,6 +836,59 @@ type jwriter struct {
 	n      int
 	ctx    context.Context // the context of its Subscribe call
 	cancel context.CancelFunc
+	sess   *sse.Session // via&2: the real Session every call answered ok is forwarded to
+}
+
+// jsink is the ResponseWriter of a session: it can flush, it keeps nothing.
+type jsink struct{ h http.Header }
+
+func (k *jsink) Header() http.Header {
+	if k.h == nil {
+		k.h = http.Header{}
+	}
+	return k.h
+}
+func (k *jsink) Write(p []byte) (int, error) { return len(p), nil }
+func (k *jsink) WriteHeader(int)             {}
+func (k *jsink) FlushError() error           { return nil }
+
+// jprov is the Provider of the scenario's Server: Joe, with the recording writer put in front of the Session.  The
+// Subscription is otherwise passed on as the Server built it (its Topics slice object, its LastEventID).
+type jprov struct{ x *jx }
+
+func (p *jprov) Subscribe(ctx context.Context, sub sse.Subscription) error {
+	sess, _ := sub.Client.(*sse.Session)
+	var w *jwriter
+	if sess != nil {
+		if v, ok := p.x.reqW.Load(sess.Req); ok {
+			w = v.(*jwriter)
+		}
+	}
+	if w == nil {
+		return p.x.joe.Subscribe(ctx, sub) // not a session of the scenario
+	}
+	if w.spec.via&jViaSession != 0 {
+		w.sess = sess
+	}
+	sub.Client = w
+	err := p.x.joe.Subscribe(ctx, sub)
+	p.x.rec(9, w.i, val.N(joeErrCode(err)))
+	return err
+}
+func (p *jprov) Publish(m *sse.Message, topics []string) error { return p.x.joe.Publish(m, topics) }
+func (p *jprov) Shutdown(ctx context.Context) error            { return p.x.joe.Shutdown(ctx) }
+
+// onSession is the Server's OnSession callback: the topics the scenario gives the session.
+func (x *jx) onSession(_ http.ResponseWriter, r *http.Request) ([]string, bool) {
+	v, ok := x.reqW.Load(r)
+	if !ok {
+		return nil, true
+	}
+	w := v.(*jwriter)
+	if len(w.spec.topics) == 0 && w.spec.via&jViaNil != 0 {
+		return nil, true
+	}
+	return jTopicNames(w.spec.topics), true
 }
 
 func (w *jwriter) verdict() uint64 {
@@ -794,12 +927,18 @@ func (w *jwriter) Send(m *sse.Message) error {
 	tok := w.x.tokOf(m)
 	v := w.verdict()
 	seq := w.x.rec(38, w.i, val.N(tok), jMsgID(m), val.N(jErrCodeOf(v, true)))
+	if v == 0 && w.sess != nil {
+		w.sess.Send(m) // the real writer, on Joe's goroutine: it dereferences what it is handed
+	}
 	return w.finish(38, seq, v)
 }
 
 func (w *jwriter) Flush() error {
 	v := w.verdict()
 	seq := w.x.rec(39, w.i, val.N(jErrCodeOf(v, true)))
+	if v == 0 && w.sess != nil {
+		w.sess.Flush()
+	}
 	return w.finish(39, seq, v)
 }
 
@@ -963,6 +1102,11 @@ func joeRunScenario(v val.V, seq uint64, shm []byte) (status uint64, events []va
 		x.joe = &sse.Joe{Replayer: &jrep{x: x, inner: inner}}
 	}
 
+	x.srv = &sse.Server{Provider: &jprov{x: x}}
+	if !sc.noOnSession {
+		x.srv.OnSession = x.onSession
+	}
+
 	sse.VerifSetHook(x.hook)
 	defer sse.VerifSetHook(nil)
 
@@ -991,9 +1135,22 @@ func joeRunScenario(v val.V, seq uint64, shm []byte) (status uint64, events []va
 			}
 			x.callStart()
 			go func() {
+				defer x.callEnd()
+				if spec.via&jViaServer != 0 {
+					// an HTTP session: the Server builds the Subscription (jprov records what Subscribe returned)
+					req := httptest.NewRequest(http.MethodGet, "/events", nil).WithContext(ctx)
+					if spec.idopt.Present() {
+						req.Header.Set("Last-Event-ID", spec.idopt.At(0).Str())
+					}
+					x.reqW.Store(req, w)
+					x.srv.ServeHTTP(&jsink{}, req)
+					return
+				}
+				if spec.via&jViaSession != 0 {
+					w.sess, _ = sse.Upgrade(&jsink{}, httptest.NewRequest(http.MethodGet, "/events", nil))
+				}
 				err := x.joe.Subscribe(ctx, sse.Subscription{Client: w, LastEventID: lastID(spec.idopt), Topics: jTopicNames(spec.topics)})
 				x.rec(9, w.i, val.N(joeErrCode(err)))
-				x.callEnd()
 			}()
 			if spec.hasCancel && len(spec.cancel) > 0 {
 				x.waitStages(spec.cancel, jHard, true)
@@ -1011,6 +1168,8 @@ func joeRunScenario(v val.V, seq uint64, shm []byte) (status uint64, events []va
 			defer x.ctlEnd(true)
 			x.waitStages(pt.start, jHard, true)
 			objs := make([]*sse.Message, len(pt.msgs))
+			var buf []string  // the thread's one topics slice (flags&2)
+			var bufTok uint64 // the last call that passed it
 			for k := range pt.msgs {
 				ms := &pt.msgs[k]
 				p := base + uint64(k)
@@ -1022,10 +1181,26 @@ func joeRunScenario(v val.V, seq uint64, shm []byte) (status uint64, events []va
 					m = jMkMsg(ms, p)
 				}
 				objs[k] = m
+				topics := jTopicNames(ms.topics)
+				if ms.flags&jPubReuse != 0 && (sc.kind == 0 || sc.kind == 4) {
+					if buf != nil && len(topics) <= cap(buf) &&
+						x.waitStages(jCond{{code: jRoundOver, id: bufTok, count: 1}}, jHard, true) {
+						buf = buf[:len(topics)]
+						copy(buf, topics) // the previous call's slice, rewritten in place
+					} else {
+						buf = topics
+					}
+					topics, bufTok = buf, p
+				}
 				x.noteCall(m, p)
-				x.rec(42, p, jNums(ms.topics))
+				x.rec(42, p, jNums(ms.effTopics()))
 				x.callStart()
-				err := x.joe.Publish(m, jTopicNames(ms.topics))
+				var err error
+				if ms.flags&jPubServer != 0 {
+					err = x.srv.Publish(m, topics...)
+				} else {
+					err = x.joe.Publish(m, topics)
+				}
 				x.rec(15, p, val.N(joeErrCode(err)))
 				x.callEnd()
 			}
